@@ -53,7 +53,10 @@ class Show(ASTNode):
     def get_string(self, *args, **kwargs):
 
         from_str = ''
-        if self.from_table:
+        if self.from_table and not all(isinstance(i, str) for i in self.from_table.parts):
+            # a name with a star part is not a chain of names: it is printed as one name
+            from_str = ' FROM ' + self.from_table.to_string()
+        elif self.from_table:
             # FROM table FROM database
             ar = [
                 f'FROM {self.part_to_string(i)}'
@@ -63,7 +66,9 @@ class Show(ASTNode):
             from_str = ' ' + ' '.join(ar)
 
         in_str = ''
-        if self.in_table:
+        if self.in_table and not all(isinstance(i, str) for i in self.in_table.parts):
+            in_str = ' IN ' + self.in_table.to_string()
+        elif self.in_table:
             ar = [
                 f'IN {self.part_to_string(i)}'
                 for i in self.in_table.parts
